@@ -46,7 +46,11 @@ func (tfg *TaskfileGraph) Visualize(filename string) error {
 }
 
 func (tfg *TaskfileGraph) Merge() (*Taskfile, error) {
-	hashes, err := graph.TopologicalSort(tfg.Graph)
+	// A stable sort: the plain topological sort ranges over Go maps, so the
+	// merge order of sibling includes (and with it which of two includes
+	// defining the same variable wins, and the order of the merged tasks)
+	// would differ from one invocation to the next
+	hashes, err := graph.StableTopologicalSort(tfg.Graph, func(a, b string) bool { return a < b })
 	if err != nil {
 		return nil, err
 	}
